@@ -49,6 +49,38 @@ Definition haccepts (mask a : N) : bool := N.testbit mask a.
    argument tuple of Termination::report *)
 Definition hdebug (a : N) : list (option string) := if a <? 8 then [Some (dec a)] else [].
 
+(* user code that panics inside a matcher (harness convention: mask bit 16, argument 7).  The scan stops
+   there: an unordered call has changed nothing yet, an ordered call has already taken its slot. *)
+Definition panicky (mask a : N) : bool := N.testbit mask 16 && (a =? 7).
+
+Fixpoint scan_panics (a : N) (ps : list pattern) : bool :=
+  match ps with
+  | [] => false
+  | p :: ps' =>
+    match p_matcher p with
+    | None => false                                  (* NoMatcherFunction ends the scan *)
+    | Some f => if panicky f a then true else if haccepts f a then false else scan_panics a ps'
+    end
+  end.
+
+Definition matcher_panics (cfg : config) (s : state) (m a : N) : option state :=
+  match lookup m (c_table cfg) with
+  | None => None
+  | Some mk =>
+    match m_mode mk with
+    | InAnyOrder => if scan_panics a (m_pats mk) then Some s else None
+    | InOrder =>
+      match find_range (next_ord s) (m_pats mk) 0 with
+      | Some (_, p) =>
+        match p_matcher p with
+        | Some f => if panicky f a then Some (set_next s (next_ord s + 1)) else None
+        | None => None
+        end
+      | None => None
+      end
+    end
+  end.
+
 (* ---------- events ---------- *)
 
 Inductive base_event :=
@@ -275,8 +307,12 @@ Definition step (w : world) (e : event) : world * string :=
     match live_inst w i with
     | None => (w, "invalid")
     | Some it =>
-      let '(s', act) := call hinfo N haccepts hdebug (w_cfg w) (w_state w) m a in
-      (after_call w i it s' act, show_call w m a act)
+      match matcher_panics (w_cfg w) (w_state w) m a with
+      | Some s' => (set_state w s', "P:user:matcher")
+      | None =>
+        let '(s', act) := call hinfo N haccepts hdebug (w_cfg w) (w_state w) m a in
+        (after_call w i it s' act, show_call w m a act)
+      end
     end
   | BCallOwn i m a =>
     match live_inst w i with
